@@ -199,7 +199,7 @@ func c05Gadget(resp *drv.Response) error {
 	for _, gc := range cases {
 		for _, hint := range []string{"MulAddHint", "ReduceHint", "SplitLimbsHint", "InverseHint"} {
 			strats := map[string][]string{"MulAddHint": {"k1", "q-1", "q+1", "solve"}, "ReduceHint": {"k1", "k2", "q-1", "q+1", "solve"},
-				"SplitLimbsHint": {"hi-1", "hi+1"}, "InverseHint": {"inv+p", "inv+1", "zero"}}[hint]
+				"SplitLimbsHint": {"hi-1", "hi+1", "solve-hi"}, "InverseHint": {"inv+p", "inv+1", "zero"}}[hint]
 			for occ := 0; occ < 3; occ++ {
 				for _, st := range strats {
 					seen, applied, trivial := 0, false, false
@@ -298,6 +298,11 @@ func hintStrategy(name string, h *engine.HintCall) []*big.Int {
 			return []*big.Int{new(big.Int).Mod(new(big.Int).Sub(g[0], one), bigR), new(big.Int).Add(g[1], two32)}
 		case "hi+1":
 			return []*big.Int{new(big.Int).Add(g[0], one), new(big.Int).Mod(new(big.Int).Sub(g[1], two32), bigR)}
+		case "solve-hi": // the low limb with its lowest bit flipped (still 32 bits), the high limb solved in the scalar field
+			lo := new(big.Int).Xor(g[1], one)
+			hi := new(big.Int).Sub(new(big.Int).Mod(in[0], bigR), lo)
+			hi.Mul(hi, new(big.Int).ModInverse(two32, bigR)).Mod(hi, bigR)
+			return []*big.Int{hi, lo}
 		}
 	case "InverseHint":
 		g := engine.GenericHint("InverseHint", in, 1)
